@@ -13,10 +13,28 @@
     carrier on which `aut` is a lawful action (`Lawful`);
   * every key these operations look up is in the list advertised for the same arguments
     (all `(batch, n)`, no enumeration; bgv two-row list included).
-  What is *not* proved here (checked on the real code by harness probes only): that the
-  ciphertext-level `Automorphism` is such a lawful action up to noise and that on encoded
-  plaintexts it is the cyclic slot rotation (DESIGN §5.11 `rotate_slots`); `ring.BRed` inside
-  `ModExp` is taken by its specification.
+  * **`rotate_slots`** (§4): over any commutative ring and any `ζ` with `ζ^N = -1`, the automorphism
+    `X ↦ X^g` (`sigma`, and the executable `RPoly.rowAut` which is proved equal to it) moves the slot
+    `a(ζ^u)` to `a(ζ^(u·g))`; for `g = GaloisElement(k)` each slot row `(a(ζ^(±5^j)))_j` is rotated
+    cyclically by exactly `k` (all Go `int` `k`), for `g = 2N-1` the rows are swapped / every slot is
+    conjugated; for the BGV model (`permuteMatrix`, NTT over `Z_p`, `decodeRingTU`) decoding after
+    `rowAut g` is `slotAut .bgv g` of the decoding (`rotate_slots_bgv`, `rotateRows_bgv`,
+    `rotate_decode`);
+  * **the executable slot carrier is lawful** (§5): `slotOps` on well-formed slot vectors is the
+    homomorphic image of the lawful carrier of evaluation vectors, all algorithms commute with the
+    homomorphism, hence every `Lawful`-conditional theorem holds for `slotOps` *without* hypothesis
+    (`*_slots`);
+  * `ring.AutomorphismNTT` (the index permutation `AutomorphismNTTIndex` applied in the NTT domain,
+    which is how ciphertext polynomials are rotated) is `NTT ∘ rowAut g ∘ NTT⁻¹`
+    (`automorphismNTT_spec`); at the ciphertext level, in the evaluation domain and under the
+    key-switch hypothesis of C04's `automorphism_phase`, the decrypted slots of `Rotate(ct, k)` are
+    those of `ct` rotated by `k`, plus the key-switch noise (`rotate_slots_ciphertext`).
+  What is *not* proved here: the key-switch hypothesis itself for the word-level Galois key switch
+  (Galois-key generation + gadget product + `ModDown`: C04/C08's business; checked on the real code by
+  the harness' decrypt-and-compare probes); the CKKS *encoder* (float FFT, not modelled) is connected
+  to the slots `a(ζ^(5^j))` only through the abstract statements of §4 (`rotate_slots`,
+  `orderTwo_conjugates` over any commutative ring, e.g. `ℂ`); sparse packing (fewer than `N/2` slots
+  per row) is not covered by §5; `ring.BRed` inside `ModExp` is taken by its specification.
   The model follows the code *after* the fixes `/verif/fixes/C11-1 … C11-5` (conjugate-invariant
   `Trace`, error instead of a nil dereference without `P`, rejection of non-positive counts, zero
   test on the sub-vector index in `InnerFunction` / `PartialTracesSum`).  The statements that were
@@ -28,6 +46,9 @@ import Lattigo.Proofs.GaloisDlog
 import Lattigo.Proofs.GaloisNTTIndex
 import Lattigo.Proofs.InnerSumTrace
 import Lattigo.Proofs.InnerSumSchemes
+import Lattigo.Proofs.SlotLawful
+import Lattigo.Proofs.RotateSlots
+import Mathlib.Tactic.NormNum.Prime
 
 namespace Lattigo.Props.C11
 open Lattigo Lattigo.Model.Galois Lattigo.Model.InnerSum
@@ -417,6 +438,379 @@ theorem keys_sufficient_rotateHoisted {α : Type} (S : Ops α) (N : Nat) (hasP :
 theorem rotateHoisted_noP_rejected {α : Type} (S : Ops α) (N : Nat) (v : α) (ks : List Int) :
     rotateHoisted S N false v ks = none := rfl
 
+/-! ## 4. `rotate_slots`: the automorphism `X ↦ X^g` on slots -/
+
+section RotateSlots
+open Lattigo.Proofs.RotateSlots Lattigo.Proofs.SlotLawful
+
+/-- `(σ_g a)(x) = a(x^g)` at every root `x` of `X^N+1`, for the coefficient-level
+    `sigma N g a = a(X^g) mod X^N+1` over any commutative ring, any `g`. -/
+theorem sigma_eval {R : Type} [CommRing R] {N : ℕ} (g : ℕ) (a : List R) (ha : a.length = N) (x : R)
+    (hx : x ^ N = -1) : evalP (sigma N g a) x = evalP a (x ^ g) :=
+  evalP_sigma g a ha x hx
+
+/-- the executable `RPoly.rowAut g q` (one RNS row of `ring.Automorphism`, coefficient domain) is
+    `sigma`, read in any commutative ring where `q = 0`, for every `g` coprime to `2N`. -/
+theorem rowAut_is_sigma {R : Type} [CommRing R] (q : ℕ) (hq : 0 < q) (hqR : (q : R) = 0) (g : ℕ)
+    (x : List ℕ) (hg : Nat.Coprime g (2 * x.length)) :
+    (RPoly.rowAut g q x).map (Nat.cast : ℕ → R) = sigma x.length g (x.map (Nat.cast : ℕ → R)) :=
+  rowAut_cast q hq hqR g x hg
+
+example : RPoly.rowAut 5 17 [1, 2, 3, 4] = [1, 15, 3, 13] := by decide
+
+/-- **`rotate_slots`.**  `nthRoot = 2N = 2^(t+3)`, `ζ^N = -1`.  The first slot row of
+    `σ_{GaloisElement(k)} a` is the first slot row of `a` rotated cyclically by `k`: slot `j`
+    receives slot `(j + k) mod N/2`.  Every Go `int` `k`. -/
+theorem rotate_slots {R : Type} [CommRing R] {t : ℕ} (ζ : R) (ht : t + 3 ≤ 64)
+    (hζ : ζ ^ 2 ^ (t + 2) = -1) (a : List R) (ha : a.length = 2 ^ (t + 2)) (k : ℤ) (j : ℕ) :
+    slot0 ζ (2 ^ (t + 3)) (sigma (2 ^ (t + 2)) (galEl (2 ^ (t + 3)) k) a) j
+      = slot0 ζ (2 ^ (t + 3)) a (((j : ℤ) + k) % ((2 ^ (t + 1) : ℕ) : ℤ)).toNat :=
+  Proofs.RotateSlots.rotate_slots ζ ht hζ a ha k j
+
+/-- non-vacuity: `R = ZMod 17`, `N = 4`, `ζ = 2` (`2^4 = -1`), `k = -1`. -/
+example (a : List (ZMod 17)) (ha : a.length = 4) :
+    slot0 2 8 (sigma 4 (galEl 8 (-1)) a) 0 = slot0 2 8 a 1 := by
+  have := rotate_slots (t := 0) (2 : ZMod 17) (by norm_num) (by decide) a ha (-1) 0
+  simpa using this
+
+/-- … and the second row (`a(ζ^(-5^j))`, the conjugate slots) is rotated in the same way. -/
+theorem rotate_slots_row1 {R : Type} [CommRing R] {t : ℕ} (ζ : R) (ht : t + 3 ≤ 64)
+    (hζ : ζ ^ 2 ^ (t + 2) = -1) (a : List R) (ha : a.length = 2 ^ (t + 2)) (k : ℤ) (j : ℕ) :
+    slot1 ζ (2 ^ (t + 3)) (sigma (2 ^ (t + 2)) (galEl (2 ^ (t + 3)) k) a) j
+      = slot1 ζ (2 ^ (t + 3)) a (((j : ℤ) + k) % ((2 ^ (t + 1) : ℕ) : ℤ)).toNat :=
+  rotate_slots_neg ζ ht hζ a ha k j
+
+/-- the order-two element `2N-1` swaps the two slot rows (BGV `RotateRows`) … -/
+theorem orderTwo_swaps_rows {R : Type} [CommRing R] {t : ℕ} (ζ : R) (hζ : ζ ^ 2 ^ (t + 2) = -1)
+    (a : List R) (ha : a.length = 2 ^ (t + 2)) (j : ℕ) :
+    slot0 ζ (2 ^ (t + 3)) (sigma (2 ^ (t + 2)) (2 ^ (t + 3) - 1) a) j = slot1 ζ (2 ^ (t + 3)) a j
+    ∧ slot1 ζ (2 ^ (t + 3)) (sigma (2 ^ (t + 2)) (2 ^ (t + 3) - 1) a) j = slot0 ζ (2 ^ (t + 3)) a j :=
+  swap_slots ζ hζ a ha j
+
+/-- … and conjugates every slot (CKKS `Conjugate`): for any ring endomorphism `c` fixing the
+    coefficients and with `c ζ = ζ^(2N-1) = ζ⁻¹` (complex conjugation, real `a`, `ζ = e^{iπ/N}`). -/
+theorem orderTwo_conjugates {R : Type} [CommRing R] {t : ℕ} (ζ : R) (hζ : ζ ^ 2 ^ (t + 2) = -1)
+    (a : List R) (ha : a.length = 2 ^ (t + 2)) (c : R →+* R) (hc : ∀ i, c (a.getD i 0) = a.getD i 0)
+    (hcζ : c ζ = ζ ^ (2 ^ (t + 3) - 1)) (u : (ZMod (2 ^ (t + 3)))ˣ) :
+    E ζ (2 ^ (t + 3)) (sigma (2 ^ (t + 2)) (2 ^ (t + 3) - 1) a) u = c (E ζ (2 ^ (t + 3)) a u) :=
+  conj_slots ζ hζ a ha c hc hcζ u
+
+/-- non-vacuity: `c = id` on `ZMod 17` does *not* satisfy `c ζ = ζ⁻¹` for `ζ = 2`, the Frobenius-like
+    hypothesis is a real one; on `ZMod 17` with `ζ = 4` (`N = 2` would be needed) — here the instance
+    `ζ = 1`, `R` of characteristic 2: `1^N = -1`. -/
+example (a : List (ZMod 2)) (ha : a.length = 4) (u : (ZMod 8)ˣ) :
+    E (1 : ZMod 2) 8 (sigma 4 7 a) u = E (1 : ZMod 2) 8 a u := by
+  have := orderTwo_conjugates (t := 0) (1 : ZMod 2) (by decide) a ha (RingHom.id _) (fun _ => rfl) (by simp) u
+  simpa using this
+
+/-- composition: `σ_g ∘ σ_h` and `σ_{gh mod 2N}` agree on every slot (`g` odd). -/
+theorem sigma_comp {R : Type} [CommRing R] {t : ℕ} (ζ : R) (hζ : ζ ^ 2 ^ (t + 2) = -1) (a : List R)
+    (ha : a.length = 2 ^ (t + 2)) (g h : ℕ) (hg : g % 2 = 1) (u : (ZMod (2 ^ (t + 3)))ˣ) :
+    E ζ (2 ^ (t + 3)) (sigma (2 ^ (t + 2)) g (sigma (2 ^ (t + 2)) h a)) u
+      = E ζ (2 ^ (t + 3)) (sigma (2 ^ (t + 2)) (g * h % 2 ^ (t + 3)) a) u :=
+  sigma_comp_slots ζ hζ a ha g h hg u
+
+/-- the plaintext modulus `65537` with primitive root `3` satisfies `PlainOK` for `N = 8`. -/
+theorem plainOK_65537 : PlainOK 1 65537 3 :=
+  ⟨by norm_num, by decide, by decide, by decide +kernel⟩
+
+/-- **`rotate_slots` for the BGV model.**  `N = 2^(e+2)`, plaintext modulus `p` (`PlainOK`), tables
+    `mkTables N p 2N g₀`, the model's `permuteMatrix`: decoding all `N` slots after the plaintext
+    automorphism `rowAut (GaloisElement k)` equals `slotAut .bgv (GaloisElement k)` of the decoding —
+    both rows rotated left by `k mod N/2` (`slotAut_rotation`). -/
+theorem rotate_slots_bgv {e p g₀ : ℕ} (h : PlainOK e p g₀) (he : e + 3 ≤ 64) (scale : ℕ) (pT : List ℕ)
+    (hlen : pT.length = 2 ^ (e + 2)) (k : ℤ) :
+    (EncoderT.decodeRingTU (NTT.mkTables (2 ^ (e + 2)) p (2 ^ (e + 3)) g₀) (EncoderT.permuteMatrix (e + 2))
+        scale (RPoly.rowAut (galEl (2 ^ (e + 3)) k) p pT) (2 ^ (e + 2))).map Int.ofNat
+      = slotAut .bgv (2 ^ (e + 3)) (galEl (2 ^ (e + 3)) k)
+          ((EncoderT.decodeRingTU (NTT.mkTables (2 ^ (e + 2)) p (2 ^ (e + 3)) g₀)
+            (EncoderT.permuteMatrix (e + 2)) scale pT (2 ^ (e + 2))).map Int.ofNat) :=
+  decode_rowAut_galEl h he scale pT hlen k
+
+/-- non-vacuity (and a TEST by evaluation of both sides): `N = 8`, `p = 65537`, `k = -3`. -/
+example :
+    (EncoderT.decodeRingTU (NTT.mkTables 8 65537 16 3) (EncoderT.permuteMatrix 3) 1
+        (RPoly.rowAut (galEl 16 (-3)) 65537 [1, 2, 3, 4, 5, 6, 7, 8]) 8).map Int.ofNat
+      = slotAut .bgv 16 (galEl 16 (-3))
+          ((EncoderT.decodeRingTU (NTT.mkTables 8 65537 16 3) (EncoderT.permuteMatrix 3) 1
+            [1, 2, 3, 4, 5, 6, 7, 8] 8).map Int.ofNat) :=
+  rotate_slots_bgv plainOK_65537 (by norm_num) 1 _ rfl (-3)
+
+/-- `RotateRows`: decoding after `rowAut (2N-1)` is the decoding with the rows swapped. -/
+theorem rotateRows_bgv {e p g₀ : ℕ} (h : PlainOK e p g₀) (he : e + 3 ≤ 64) (scale : ℕ) (pT : List ℕ)
+    (hlen : pT.length = 2 ^ (e + 2)) :
+    (EncoderT.decodeRingTU (NTT.mkTables (2 ^ (e + 2)) p (2 ^ (e + 3)) g₀) (EncoderT.permuteMatrix (e + 2))
+        scale (RPoly.rowAut (2 ^ (e + 3) - 1) p pT) (2 ^ (e + 2))).map Int.ofNat
+      = slotAut .bgv (2 ^ (e + 3)) (2 ^ (e + 3) - 1)
+          ((EncoderT.decodeRingTU (NTT.mkTables (2 ^ (e + 2)) p (2 ^ (e + 3)) g₀)
+            (EncoderT.permuteMatrix (e + 2)) scale pT (2 ^ (e + 2))).map Int.ofNat) :=
+  decode_rowAut_orderTwo h he scale pT hlen
+
+/-- **keys level**: `RotateColumns(k)` on a decoded plaintext looks up exactly `GaloisElement(k)`
+    (nothing if it is `1`) and its value is the decoding of `rowAut (GaloisElement k)`, which is the
+    decoded vector with both rows rotated left by exactly `k mod N/2`. -/
+theorem rotate_decode {e p g₀ : ℕ} (h : PlainOK e p g₀) (he : e + 3 ≤ 64) (scale : ℕ) (pT : List ℕ)
+    (hlen : pT.length = 2 ^ (e + 2)) (k : ℤ) :
+    rotate (slotOps .bgv (2 ^ (e + 3)) p) (2 ^ (e + 3))
+        ((EncoderT.decodeRingTU (NTT.mkTables (2 ^ (e + 2)) p (2 ^ (e + 3)) g₀)
+          (EncoderT.permuteMatrix (e + 2)) scale pT (2 ^ (e + 2))).map Int.ofNat) k
+      = .ok ((EncoderT.decodeRingTU (NTT.mkTables (2 ^ (e + 2)) p (2 ^ (e + 3)) g₀)
+              (EncoderT.permuteMatrix (e + 2)) scale
+              (RPoly.rowAut (galEl (2 ^ (e + 3)) k) p pT) (2 ^ (e + 2))).map Int.ofNat)
+            (request false (galEl (2 ^ (e + 3)) k) [])
+    ∧ (EncoderT.decodeRingTU (NTT.mkTables (2 ^ (e + 2)) p (2 ^ (e + 3)) g₀) (EncoderT.permuteMatrix (e + 2))
+          scale (RPoly.rowAut (galEl (2 ^ (e + 3)) k) p pT) (2 ^ (e + 2))).map Int.ofNat
+        = rotL (kmod e k) ((List.range (2 ^ (e + 1))).map (fun j => Int.ofNat (dec0 e p g₀ scale pT j)))
+          ++ rotL (kmod e k) ((List.range (2 ^ (e + 1))).map (fun j => Int.ofNat (dec1 e p g₀ scale pT j))) :=
+  Proofs.RotateSlots.rotate_decode h he scale pT hlen k
+
+/-- `RotateRows` at the keys level. -/
+theorem rotateRows_decode {e p g₀ : ℕ} (h : PlainOK e p g₀) (he : e + 3 ≤ 64) (scale : ℕ) (pT : List ℕ)
+    (hlen : pT.length = 2 ^ (e + 2)) :
+    conjugate (slotOps .bgv (2 ^ (e + 3)) p) .standard (2 ^ (e + 3))
+        ((EncoderT.decodeRingTU (NTT.mkTables (2 ^ (e + 2)) p (2 ^ (e + 3)) g₀)
+          (EncoderT.permuteMatrix (e + 2)) scale pT (2 ^ (e + 2))).map Int.ofNat)
+      = .ok ((EncoderT.decodeRingTU (NTT.mkTables (2 ^ (e + 2)) p (2 ^ (e + 3)) g₀)
+              (EncoderT.permuteMatrix (e + 2)) scale
+              (RPoly.rowAut (2 ^ (e + 3) - 1) p pT) (2 ^ (e + 2))).map Int.ofNat)
+            (request false (2 ^ (e + 3) - 1) []) :=
+  conjugate_decode h he scale pT hlen
+
+/-- **`ring.AutomorphismNTT` is `NTT ∘ σ_g ∘ NTT⁻¹`.**  `AutomorphismNTTWithIndex` computes
+    `out[i] = in[index[i]]` with `index = AutomorphismNTTIndex(N, 2N, g)`; on the NTT of `a` (generated
+    tables, any NTT-friendly prime `q`, `N = 2^K`) this is the NTT of `rowAut g q a = a(X^g) mod X^N+1`.
+    This is how the automorphism is applied to ciphertext and plaintext polynomials (NTT domain). -/
+theorem automorphismNTT_spec (K q g₀ : ℕ) (hK : 1 ≤ K) (hK64 : K + 1 ≤ 64) (hq : q.Prime)
+    (h8 : 8 * q ≤ W) (hdiv : 2 ^ (K + 1) ∣ q - 1) (hg₀ : g₀ ^ ((q - 1) / 2) % q = q - 1)
+    (a : List ℕ) (hlen : a.length = 2 ^ K) (ha : ∀ x ∈ a, x < q) (g : ℕ) (hg : g % 2 = 1) :
+    ∃ idx, automorphismNTTIndex (2 ^ K) (2 ^ (K + 1)) g = some idx ∧
+      NTT.nttStd (NTT.mkTables (2 ^ K) q (2 ^ (K + 1)) g₀) (RPoly.rowAut g q a)
+        = idx.map (fun j => (NTT.nttStd (NTT.mkTables (2 ^ K) q (2 ^ (K + 1)) g₀) a).getD j 0) :=
+  Proofs.RotateSlots.automorphismNTT_spec K q g₀ hK hK64 hq h8 hdiv hg₀ a hlen ha g hg
+
+/-- non-vacuity: `q = 65537`, `N = 8`, `g = 5^3 mod 16 = 13`. -/
+example : ∃ idx, automorphismNTTIndex 8 16 13 = some idx ∧
+    NTT.nttStd (NTT.mkTables 8 65537 16 3) (RPoly.rowAut 13 65537 [1, 2, 3, 4, 5, 6, 7, 65536])
+      = idx.map (fun j => (NTT.nttStd (NTT.mkTables 8 65537 16 3) [1, 2, 3, 4, 5, 6, 7, 65536]).getD j 0) :=
+  automorphismNTT_spec 3 65537 3 (by norm_num) (by norm_num) (by norm_num) (by decide) (by decide)
+    (by decide +kernel) _ rfl (by decide) 13 (by norm_num)
+
+/-- **ciphertext level (evaluation domain), up to the key-switch noise.**  Ciphertext components as
+    slot vectors `(ZMod 2N)ˣ → R`; `Automorphism(ct, g) = (σ(ks.1 + c0), σ ks.2)` (C04's model) with
+    `σ = slotPerm g` the index permutation of `automorphismNTT_spec`.  Under the key-switch hypothesis
+    `hks` (what Galois-key generation and the gadget product provide: C04/C08), for
+    `g = GaloisElement(k) = 5^k` the decrypted slot `j` of either row of `Rotate(ct, k)` is the
+    decrypted slot `(j + k) mod N/2` of the same row of `ct` plus the key-switch noise at that slot. -/
+theorem rotate_slots_ciphertext {R : Type} [CommRing R] {t : ℕ} (k : ℤ)
+    (ks ct : ((ZMod (2 ^ (t + 3)))ˣ → R) × ((ZMod (2 ^ (t + 3)))ˣ → R))
+    (s ν : (ZMod (2 ^ (t + 3)))ˣ → R)
+    (hks : KS.phase ks (slotPerm (five (t + 3) ^ k)⁻¹ s) = ct.2 * s + ν) (j : ℕ) (sgn : Bool) :
+    let pt := fun (i : ℕ) => if sgn then -(five (t + 3) ^ i) else five (t + 3) ^ i
+    KS.phase (KS.automorphism (slotPerm (five (t + 3) ^ k)) ks ct) s (pt j)
+      = KS.phase ct s (pt (((j : ℤ) + k) % ((2 ^ (t + 1) : ℕ) : ℤ)).toNat)
+        + ν (pt (((j : ℤ) + k) % ((2 ^ (t + 1) : ℕ) : ℤ)).toNat) :=
+  rotate_ciphertext_slots k ks ct s ν hks j sgn
+
+/-- non-vacuity: for any `ks`, `ct`, `s` the hypothesis holds with `ν` := the actual key-switch error. -/
+example (ks ct : ((ZMod 8)ˣ → ZMod 17) × ((ZMod 8)ˣ → ZMod 17)) (s : (ZMod 8)ˣ → ZMod 17) :
+    KS.phase ks (slotPerm (five 3 ^ (2 : ℤ))⁻¹ s)
+      = ct.2 * s + (KS.phase ks (slotPerm (five 3 ^ (2 : ℤ))⁻¹ s) - ct.2 * s) := by ring
+
+/-- same for the order-two element and for any other unit `g`: slot `u` ↦ slot `u·g`. -/
+theorem automorphism_slots_ciphertext {R : Type} [CommRing R] {M : ℕ} (g : (ZMod M)ˣ)
+    (ks ct : ((ZMod M)ˣ → R) × ((ZMod M)ˣ → R)) (s ν : (ZMod M)ˣ → R)
+    (hks : KS.phase ks (slotPerm g⁻¹ s) = ct.2 * s + ν) (u : (ZMod M)ˣ) :
+    KS.phase (KS.automorphism (slotPerm g) ks ct) s u = KS.phase ct s (u * g) + ν (u * g) :=
+  automorphism_slots g ks ct s ν hks u
+
+end RotateSlots
+
+/-! ## 5. the executable slot carrier `slotOps` is lawful -/
+
+section SlotLawful
+open Lattigo.Proofs.SlotLawful
+
+/-- the evaluation vectors (`f : ZMod nthRoot → ZMod t × ZMod t`, `f(-u) = τ(f u)`, `aut g f = f(·g)`)
+    are a lawful carrier, for every layout, every `nthRoot = 2^(e+3)`, every modulus `t`. -/
+theorem slot_carrier_lawful (lay : Layout) (e t : ℕ) : Lawful (evOps lay e t) (2 ^ (e + 3)) :=
+  evOps_lawful lay e t
+
+/-- reading an evaluation vector at `±5^j` is a homomorphism onto the executable `slotOps`, for `add`,
+    `scaleInv` and `aut g`, `g = GaloisElement(k)` or `nthRoot-1` (`GoodG`); CKKS layout with plain
+    integer entries (`t = 0`, as the driver runs it). -/
+theorem slot_hom (lay : Layout) (e t : ℕ) (he : e + 3 ≤ 64) (hck : lay = .ckks → t = 0) :
+    Sim (evOps lay e t) (slotOps lay (2 ^ (e + 3)) t) (toSlots lay e t) (GoodG lay e) :=
+  sim_slots lay e t he hck
+
+/-- … and it is onto the well-formed slot vectors. -/
+theorem slots_surjective (lay : Layout) (e t : ℕ) (he : e + 3 ≤ 64) (v : List Int)
+    (hv : SlotVec lay e t v) : toSlots lay e t (ofSlots lay e t v) = v :=
+  toSlots_ofSlots lay e t he v hv
+
+/-- **the laws of `Lawful` hold for `slotOps` on well-formed slot vectors**: closure,
+    `rot a ∘ rot b = rot (a+b)`, `rot 0 = id`, additivity of every Galois element used. -/
+theorem slotOps_lawful (lay : Layout) (e t : ℕ) (he : e + 3 ≤ 64) (hck : lay = .ckks → t = 0)
+    (v w : List Int) (hv : SlotVec lay e t v) (hw : SlotVec lay e t w) :
+    SlotVec lay e t ((slotOps lay (2 ^ (e + 3)) t).add v w)
+    ∧ (∀ g, GoodG lay e g → SlotVec lay e t (slotAut lay (2 ^ (e + 3)) g v))
+    ∧ (∀ a b : ℤ, slotAut lay (2 ^ (e + 3)) (galEl (2 ^ (e + 3)) a)
+          (slotAut lay (2 ^ (e + 3)) (galEl (2 ^ (e + 3)) b) v)
+        = slotAut lay (2 ^ (e + 3)) (galEl (2 ^ (e + 3)) (a + b)) v)
+    ∧ slotAut lay (2 ^ (e + 3)) (galEl (2 ^ (e + 3)) 0) v = v
+    ∧ (∀ g, GoodG lay e g → slotAut lay (2 ^ (e + 3)) g ((slotOps lay (2 ^ (e + 3)) t).add v w)
+        = (slotOps lay (2 ^ (e + 3)) t).add (slotAut lay (2 ^ (e + 3)) g v) (slotAut lay (2 ^ (e + 3)) g w)) :=
+  ⟨slotVec_add lay e t he hck v w hv hw,
+   fun g hg => slotVec_aut lay e t he hck g hg v hv,
+   fun a b => slotOps_rot_add lay e t he hck a b v hv,
+   slotOps_rot_zero lay e t he hck v hv,
+   fun g hg => slotOps_aut_add lay e t he hck g hg v w hv hw⟩
+
+/-- the order-two element on slot vectors: an involution commuting with the rotations. -/
+theorem slotOps_orderTwo (lay : Layout) (e t : ℕ) (he : e + 3 ≤ 64) (hlay : lay ≠ .single)
+    (hck : lay = .ckks → t = 0) (v : List Int) (hv : SlotVec lay e t v) (k : ℤ) :
+    slotAut lay (2 ^ (e + 3)) (2 ^ (e + 3) - 1) (slotAut lay (2 ^ (e + 3)) (2 ^ (e + 3) - 1) v) = v
+    ∧ slotAut lay (2 ^ (e + 3)) (2 ^ (e + 3) - 1) (slotAut lay (2 ^ (e + 3)) (galEl (2 ^ (e + 3)) k) v)
+        = slotAut lay (2 ^ (e + 3)) (galEl (2 ^ (e + 3)) k) (slotAut lay (2 ^ (e + 3)) (2 ^ (e + 3) - 1) v) :=
+  Proofs.SlotLawful.slotOps_orderTwo lay e t he hlay hck v hv k
+
+/-- `slotAut` of a rotation, explicitly: both rows rotated left by `k mod N/2` (one row for `.single`). -/
+theorem slotAut_rotation (lay : Layout) (e : ℕ) (he : e + 3 ≤ 64) (k : ℤ) :
+    (∀ v : List Int, slotAut .single (2 ^ (e + 3)) (galEl (2 ^ (e + 3)) k) v = rotL (kmod e k) v)
+    ∧ (lay ≠ .single → ∀ r0 r1 : List Int, r0.length = r1.length →
+        slotAut lay (2 ^ (e + 3)) (galEl (2 ^ (e + 3)) k) (r0 ++ r1)
+          = rotL (kmod e k) r0 ++ rotL (kmod e k) r1) :=
+  ⟨fun v => slotAut_galEl_single e he k v, fun hl r0 r1 h => slotAut_galEl_rows lay hl e he k r0 r1 h⟩
+
+example : slotAut .bgv 32 (galEl 32 (-1)) [1, 2, 3, 4, 5, 6, 7, 8, 11, 12, 13, 14, 15, 16, 17, 18]
+    = [8, 1, 2, 3, 4, 5, 6, 7, 18, 11, 12, 13, 14, 15, 16, 17] := by decide +kernel
+
+/-- `slotAut` of the order-two element, explicitly. -/
+theorem slotAut_orderTwo (e : ℕ) (he : e + 3 ≤ 64) (r0 r1 : List Int) (h : r0.length = r1.length) :
+    slotAut .bgv (2 ^ (e + 3)) (2 ^ (e + 3) - 1) (r0 ++ r1) = r1 ++ r0
+    ∧ slotAut .ckks (2 ^ (e + 3)) (2 ^ (e + 3) - 1) (r0 ++ r1) = r0 ++ r1.map (fun x => -x) :=
+  ⟨slotAut_orderTwo_bgv e he r0 r1 h, slotAut_orderTwo_ckks e he r0 r1 h⟩
+
+/-- entry `i` of a slot-level sum is the sum of the entries, reduced mod `t` (`t = 0`: not reduced). -/
+theorem slotSum_entries (lay : Layout) (e t n : ℕ) (F : ℕ → List Int)
+    (hF : ∀ r < n, (F r).length = (if lay = .single then 2 ^ (e + 1) else 2 * 2 ^ (e + 1))) :
+    (slotSum lay e t n F).length = (if lay = .single then 2 ^ (e + 1) else 2 * 2 ^ (e + 1)) ∧
+    ∀ i, i < (if lay = .single then 2 ^ (e + 1) else 2 * 2 ^ (e + 1)) →
+      (slotSum lay e t n F).getD i 0 = red t (∑ r ∈ range n, (F r).getD i 0) :=
+  slotSum_spec lay e t n F hF
+
+/-- **`innerSum_spec` for the executable slot vectors — no `Lawful` hypothesis.**
+    `nthRoot = 2^(e+3)`, rows of `2^(e+1)` slots. -/
+theorem innerSum_spec_slots (lay : Layout) (e t : ℕ) (he : e + 3 ≤ 64) (hck : lay = .ckks → t = 0)
+    (v out0 acc0 : List Int) (hv : SlotVec lay e t v) (hout : SlotVec lay e t out0)
+    (hacc : SlotVec lay e t acc0) (offset n : ℤ) (hn : 1 ≤ n) (hn63 : n < 9223372036854775808)
+    (hoff : offset ≠ 0) :
+    (partialTracesSum (slotOps lay (2 ^ (e + 3)) t) (2 ^ (e + 3)) true v out0 acc0 offset n).val?
+      = some (slotSum lay e t n.toNat
+          (fun r => slotAut lay (2 ^ (e + 3)) (galEl (2 ^ (e + 3)) ((r : ℤ) * offset)) v)) :=
+  Proofs.SlotLawful.innerSum_spec_slots lay e t he hck v out0 acc0 hv hout hacc offset n hn hn63 hoff
+
+/-- non-vacuity: BGV layout, `nthRoot = 32`, `t = 97`, dirty (but well-formed) buffers. -/
+example :
+    (partialTracesSum (slotOps .bgv 32 97) 32 true
+        [1, 2, 3, 4, 5, 6, 7, 8, 11, 12, 13, 14, 15, 16, 17, 96]
+        [9, 9, 9, 9, 9, 9, 9, 9, 9, 9, 9, 9, 9, 9, 9, 9] [5, 5, 5, 5, 5, 5, 5, 5, 5, 5, 5, 5, 5, 5, 5, 5]
+        (-3) 7).val?
+      = some (slotSum .bgv 2 97 7 (fun r => slotAut .bgv 32 (galEl 32 ((r : ℤ) * (-3)))
+          [1, 2, 3, 4, 5, 6, 7, 8, 11, 12, 13, 14, 15, 16, 17, 96])) :=
+  innerSum_spec_slots .bgv 2 97 (by norm_num) (by simp) _ _ _ ⟨by decide, fun _ => by decide⟩
+    ⟨by decide, fun _ => by decide⟩ ⟨by decide, fun _ => by decide⟩ (-3) 7 (by norm_num) (by norm_num)
+    (by norm_num)
+
+theorem innerFunction_spec_slots (lay : Layout) (e t : ℕ) (he : e + 3 ≤ 64) (hck : lay = .ckks → t = 0)
+    (v out0 acc0 : List Int) (hv : SlotVec lay e t v) (hout : SlotVec lay e t out0)
+    (hacc : SlotVec lay e t acc0) (batch n : ℤ) (hn : 1 ≤ n) (hn63 : n < 9223372036854775808) :
+    (innerFunction (slotOps lay (2 ^ (e + 3)) t) (slotOps lay (2 ^ (e + 3)) t).add (2 ^ (e + 3))
+        v out0 acc0 batch n).val?
+      = some (slotSum lay e t n.toNat
+          (fun r => slotAut lay (2 ^ (e + 3)) (galEl (2 ^ (e + 3)) ((r : ℤ) * batch)) v)) :=
+  Proofs.SlotLawful.innerFunction_spec_slots lay e t he hck v out0 acc0 hv hout hacc batch n hn hn63
+
+theorem replicate_spec_slots (lay : Layout) (e t : ℕ) (he : e + 3 ≤ 64) (hck : lay = .ckks → t = 0)
+    (v out0 acc0 : List Int) (hv : SlotVec lay e t v) (hout : SlotVec lay e t out0)
+    (hacc : SlotVec lay e t acc0) (batch n : ℤ) (hn : 1 ≤ n) (hb : batch ≠ 0)
+    (hsmall : n * |batch| < 9223372036854775808) :
+    (replicate (slotOps lay (2 ^ (e + 3)) t) (2 ^ (e + 3)) true v out0 acc0 batch n).val?
+      = some (slotSum lay e t n.toNat
+          (fun r => slotAut lay (2 ^ (e + 3)) (galEl (2 ^ (e + 3)) (-((r : ℤ) * batch))) v)) :=
+  Proofs.SlotLawful.replicate_spec_slots lay e t he hck v out0 acc0 hv hout hacc batch n hn hb hsmall
+
+theorem innerSumCKKS_spec_slots (lay : Layout) (e t : ℕ) (he : e + 3 ≤ 64) (hck : lay = .ckks → t = 0)
+    (slots : ℕ) (v out0 acc0 : List Int) (hv : SlotVec lay e t v) (hout : SlotVec lay e t out0)
+    (hacc : SlotVec lay e t acc0) (batch n : ℤ) (hn : 0 < n) (hb : 0 < batch)
+    (hnb : n * batch < 9223372036854775808) :
+    ∀ y, (innerSumCKKS (slotOps lay (2 ^ (e + 3)) t) (2 ^ (e + 3)) slots true v out0 acc0 batch n).val? = some y →
+      y = slotSum lay e t n.toNat
+          (fun r => slotAut lay (2 ^ (e + 3)) (galEl (2 ^ (e + 3)) ((r : ℤ) * batch)) v) :=
+  Proofs.SlotLawful.innerSumCKKS_spec_slots lay e t he hck slots v out0 acc0 hv hout hacc batch n hn hb hnb
+
+/-- non-vacuity: CKKS layout (`re ++ im`, plain integers), `(batch, n) = (2, 4)` on 8 slots accepted. -/
+example : ((innerSumCKKS (slotOps .ckks 32 0) 32 8 true
+    [1, 2, 3, 4, 5, 6, 7, 8, -1, -2, -3, -4, -5, -6, -7, -8]
+    (List.replicate 16 0) (List.replicate 16 0) 2 4).val?).isSome = true := by decide +kernel
+
+theorem innerSumBGV_spec_slots (lay : Layout) (e t : ℕ) (he : e + 3 ≤ 64) (hlay : lay ≠ .single)
+    (hck : lay = .ckks → t = 0) (slots : ℕ) (v out0 acc0 : List Int) (hv : SlotVec lay e t v)
+    (hout : SlotVec lay e t out0) (hacc : SlotVec lay e t acc0) (batch n : ℤ) (hn : 0 < n)
+    (hb : 0 < batch) (hnb : n * batch < 9223372036854775808) :
+    ∀ y, (innerSumBGV (slotOps lay (2 ^ (e + 3)) t) (2 ^ (e + 3)) slots true v out0 acc0 batch n).val? = some y →
+      y = if n * batch = slots ∧ n ≠ 1 then
+            (let u := slotSum lay e t (n / 2).toNat
+                (fun r => slotAut lay (2 ^ (e + 3)) (galEl (2 ^ (e + 3)) ((r : ℤ) * batch)) v)
+             (slotOps lay (2 ^ (e + 3)) t).add u (slotAut lay (2 ^ (e + 3)) (2 ^ (e + 3) - 1) u))
+          else slotSum lay e t n.toNat
+            (fun r => slotAut lay (2 ^ (e + 3)) (galEl (2 ^ (e + 3)) ((r : ℤ) * batch)) v) :=
+  Proofs.SlotLawful.innerSumBGV_spec_slots lay e t he hlay hck slots v out0 acc0 hv hout hacc batch n hn hb hnb
+
+/-- non-vacuity: the boundary `n·batch = slots` (`(2, 8)` on 16 slots, `nthRoot = 32`) is accepted. -/
+example : ((innerSumBGV (slotOps .bgv 32 97) 32 16 true
+    [1, 2, 3, 4, 5, 6, 7, 8, 11, 12, 13, 14, 15, 16, 17, 96]
+    (List.replicate 16 0) (List.replicate 16 0) 2 8).val?).isSome = true := by decide +kernel
+
+theorem trace_spec_standard_slots (lay : Layout) (e t : ℕ) (he : e + 3 ≤ 63) (hlay : lay ≠ .single)
+    (hck : lay = .ckks → t = 0) (v : List Int) (hv : SlotVec lay e t v) (logN : ℕ) (h0 : 0 < logN)
+    (hlt : logN + 1 < e + 2) :
+    (trace (slotOps lay (2 ^ (e + 3)) t) .standard (e + 2) v (logN : ℤ)).val?
+      = some (slotSum lay e t (2 ^ (e + 2 - 1 - logN))
+          (fun j => slotAut lay (2 ^ (e + 3)) (galEl (2 ^ (e + 3)) ((j : ℤ) * ((2 ^ logN : ℕ) : ℤ)))
+            ((slotOps lay (2 ^ (e + 3)) t).scaleInv (2 ^ (e + 2 - 1 - logN)) v))) :=
+  Proofs.SlotLawful.trace_spec_standard_slots lay e t he hlay hck v hv logN h0 hlt
+
+/-- non-vacuity: standard ring of degree 16 (`e = 2`), `logN = 1`. -/
+example : (trace (slotOps .bgv 32 97) .standard 4
+      [1, 2, 3, 4, 5, 6, 7, 8, 11, 12, 13, 14, 15, 16, 17, 96] 1).val?
+    = some (slotSum .bgv 2 97 4 (fun j => slotAut .bgv 32 (galEl 32 ((j : ℤ) * ((2 ^ 1 : ℕ) : ℤ)))
+        ((slotOps .bgv 32 97).scaleInv 4 [1, 2, 3, 4, 5, 6, 7, 8, 11, 12, 13, 14, 15, 16, 17, 96]))) :=
+  trace_spec_standard_slots .bgv 2 97 (by norm_num) (by decide) (by simp) _
+    ⟨by decide, fun _ => by decide⟩ 1 (by norm_num) (by norm_num)
+
+theorem trace_spec_ci_slots (lay : Layout) (e t : ℕ) (he : e + 3 ≤ 64) (hck : lay = .ckks → t = 0)
+    (v : List Int) (hv : SlotVec lay e t v) (logN : ℕ) (hlt : logN < e + 1) :
+    (trace (slotOps lay (2 ^ (e + 3)) t) .conjugateInvariant (e + 1) v (logN : ℤ)).val?
+      = some (slotSum lay e t (2 ^ (e + 1 - logN))
+          (fun j => slotAut lay (2 ^ (e + 3)) (galEl (2 ^ (e + 3)) ((j : ℤ) * ((2 ^ logN : ℕ) : ℤ)))
+            ((slotOps lay (2 ^ (e + 3)) t).scaleInv (2 ^ (e + 1 - logN)) v))) :=
+  Proofs.SlotLawful.trace_spec_ci_slots lay e t he hck v hv logN hlt
+
+/-- non-vacuity: the conjugate-invariant example of §2 (degree 16, `nthRoot = 64`, `e = 3`). -/
+example : SlotVec .single 3 0 [4,8,12,16,20,24,28,32,36,40,44,48,52,56,60,64] :=
+  ⟨by decide, fun h => absurd rfl h⟩
+
+theorem trace_spec_zero_standard_slots (lay : Layout) (e t : ℕ) (he : e + 3 ≤ 63) (hlay : lay ≠ .single)
+    (hck : lay = .ckks → t = 0) (v : List Int) (hv : SlotVec lay e t v) :
+    (trace (slotOps lay (2 ^ (e + 3)) t) .standard (e + 2) v 0).val?
+      = some (let u := slotSum lay e t (2 ^ (e + 2 - 1))
+                (fun j => slotAut lay (2 ^ (e + 3)) (galEl (2 ^ (e + 3)) ((j : ℤ) * ((2 ^ 0 : ℕ) : ℤ)))
+                  ((slotOps lay (2 ^ (e + 3)) t).scaleInv (2 ^ (e + 2)) v))
+              (slotOps lay (2 ^ (e + 3)) t).add u (slotAut lay (2 ^ (e + 3)) (2 ^ (e + 3) - 1) u)) :=
+  Proofs.SlotLawful.trace_spec_zero_standard_slots lay e t he hlay hck v hv
+
+end SlotLawful
+
 end Lattigo.Props.C11
 
 section Axioms
@@ -457,4 +851,35 @@ open Lattigo.Props.C11
 #print axioms keys_sufficient_rotate
 #print axioms keys_sufficient_rotateHoisted
 #print axioms rotateHoisted_noP_rejected
+#print axioms sigma_eval
+#print axioms rowAut_is_sigma
+#print axioms rotate_slots
+#print axioms rotate_slots_row1
+#print axioms orderTwo_swaps_rows
+#print axioms orderTwo_conjugates
+#print axioms sigma_comp
+#print axioms plainOK_65537
+#print axioms rotate_slots_bgv
+#print axioms rotateRows_bgv
+#print axioms rotate_decode
+#print axioms rotateRows_decode
+#print axioms automorphismNTT_spec
+#print axioms rotate_slots_ciphertext
+#print axioms automorphism_slots_ciphertext
+#print axioms slot_carrier_lawful
+#print axioms slot_hom
+#print axioms slots_surjective
+#print axioms slotOps_lawful
+#print axioms slotOps_orderTwo
+#print axioms slotAut_rotation
+#print axioms slotAut_orderTwo
+#print axioms slotSum_entries
+#print axioms innerSum_spec_slots
+#print axioms innerFunction_spec_slots
+#print axioms replicate_spec_slots
+#print axioms innerSumCKKS_spec_slots
+#print axioms innerSumBGV_spec_slots
+#print axioms trace_spec_standard_slots
+#print axioms trace_spec_ci_slots
+#print axioms trace_spec_zero_standard_slots
 end Axioms
